@@ -19,6 +19,9 @@ OBLIGATIONS = [
        bounds="integer arrays = all pairs (thorough: triples) of a 23-value boundary menu (+-1 around every width limit); float arrays from a 15-value menu x tolerance {1e-6,1e-3,1e-9} x float32/64 x {data, category, file}; non-finite and overflowing floats; string arrays with masks (empty, duplicate, non-ASCII); 6 explicit encoding chains"),
     SX("sx_fixedpoint", "sx_c05", "ob_fixedpoint", cls="E", quick=60, parts=1,
        functions=[E_ + "FixedPointEncoding.encode/decode (compiled)"], bounds="7 boundary values x factor {1,10,1000}"),
+    SX("sx_safe_cast", "sx_c05", "ob_safe_cast", cls="E", quick=100, parts=1,
+       functions=["src/biotite/structure/io/pdbx/encoding.pyx:_safe_cast (compiled)", "src/biotite/structure/io/pdbx/encoding.pyx:ByteArrayEncoding.encode/decode (compiled)"],
+       bounds="every pair of the six integer types x 9 boundary values (type limits of source and target, +-1 around them): values outside the target type raise ValueError, values inside are preserved exactly - also for targets at least as wide as the source but of different signedness"),
 ]
 EXPLANATION = "C05: BinaryCIF encodings invertible; compression within tolerance."
 ASSUMPTIONS = []
